@@ -68,7 +68,7 @@ def check(ctx, node, prog, bag):
 
 
 def run_case(ctx, rng, idx):
-    node = gen_node(rng, ctx.tier)
+    node = gen_node(rng, ctx.tier, with_models=True)
     prog = Program(node)
     _, bag = data_bag(rng, node, n_valid=3, n_mut=12, n_pool=30)
     ctx.count("programs")
